@@ -1,7 +1,7 @@
 CONSTANTS
  SrcArrs = {2,3,4,5,6,7,8,10,11,12}
  SensArrs = {1,4,5,8,10,11,16}
- PPs = {2, 4}
+ PPs = {2, 4, 5}
  Fields = {"B", "H"}
  Aggs = {"none", "mean", "max"}
  Flags = {0,1,2,3}
